@@ -1198,6 +1198,13 @@ namespace cds { namespace intrusive {
                 pPrev = pCur;
                 pPrevVal = pVal;
                 pos.prevGuard.copy( pos.guard );
+                if ( pVal && pCur->data.load( memory_model::memory_order_acquire ).ptr() != pVal ) {
+                    // Copying a hazard pointer is not an atomic hand-off for a concurrent scan: the scan may read
+                    // prevGuard before the copy and guard after it has been reused. If the item has left its node
+                    // meanwhile it may already be freed (and its address reused), so pPrevVal cannot be trusted: restart
+                    pPrev = const_cast<node_type*>(pHead);
+                    pPrevVal = pPrev->data.load( memory_model::memory_order_relaxed ).ptr();
+                }
             }
         }
 
